@@ -8,7 +8,7 @@ use crate::driver::{AnyFlow, ReqCfg};
 use crate::engine::{guarded, Report, Tier, Violation};
 use crate::refmodel::{head, redirect};
 
-pub const RULE: &str = "full product: method (9) x status 300..=399 x policy {Never, SameHost} x response body {Content-Length: 0, Content-Length: 3 + body, chunked body, no framing header} x Location {/next, absent, one that resolves to the request's own URI, one on another host} x request mode {plain; HTTP/1.0 request (GET, HEAD, POST); loaded (cookie, referer, origin, user-agent and the caller's own Transfer-Encoding: chunked; body-less methods with send-body-despite-method); send-body-despite-method (body-less methods); Expect: 100-continue refused by the 3xx itself, and late 100 delivered in the same buffer as the 3xx (body methods)} = 105600 cells, each evaluated with the library's logging off and again with it at level Trace (debug!/trace! arguments evaluated and formatted), each driven through the real flow from Prepare to the state after the response (through RecvBody where there is one), then as_new_flow and the head of the new request. distinct = distinct (method, status class, body kind, outcome) cells";
+pub const RULE: &str = "full product: method (9) x status 300..=399 x policy {Never, SameHost} x response body {Content-Length: 0, Content-Length: 3 + body, chunked body, no framing header} x Location {/next, absent, one that resolves to the request's own URI, one on another host} x request mode {plain; HTTP/1.0 request (GET, HEAD, POST); loaded (cookie, referer, origin, user-agent and the caller's own Transfer-Encoding: chunked; body-less methods with send-body-despite-method; two superfluous try_response polls after the response was received); send-body-despite-method (body-less methods); Expect: 100-continue refused by the 3xx itself, and late 100 delivered in the same buffer as the 3xx (body methods)} = 105600 cells, each evaluated with the library's logging off and again with it at level Trace (debug!/trace! arguments evaluated and formatted), each driven through the real flow from Prepare to the state after the response (through RecvBody where there is one), then as_new_flow and the head of the new request. distinct = distinct (method, status class, body kind, outcome) cells";
 
 const METHODS: [&str; 9] = ["GET", "HEAD", "POST", "PUT", "DELETE", "CONNECT", "OPTIONS", "TRACE", "PATCH"];
 const BODIES: [&str; 16] = ["cl0", "cl3", "chunked", "none", "cl0-noloc", "cl3-noloc", "chunked-noloc", "none-noloc", "cl0-self", "cl3-self", "chunked-self", "none-self", "cl0-xhost", "cl3-xhost", "chunked-xhost", "none-xhost"];
@@ -122,6 +122,12 @@ fn check_cell(method: &str, status: u16, same_host: bool, body: &str) -> (Option
         }
         if off != input.len() {
             return Err(h(format!("consumed {} of {} head bytes", off, input.len())));
+        }
+        if mode == "loaded" {
+            // a caller that polls once more before looking at the readiness query: with nothing new, and
+            // with the first bytes of what follows the head - neither may change what was received
+            let _ = f.try_response(b"");
+            let _ = f.try_response(&body_bytes[..body_bytes.len().min(2)]);
         }
         let mut cur = AnyFlow::RecvResponse(f).proceed().map_err(|e| ("C15:harness".to_string(), e))?.ok_or(("C15:harness".to_string(), "proceed refused".to_string()))?;
         let _ = &mut cur;
